@@ -290,10 +290,11 @@ def run_check(prop, tier):
             stream_infos.append({k: info[k] for k in ("stream", "rc", "lines", "gen_s", "driver_rc") if k in info} | {"tag": tag, "driver_s": info.get("driver_s")})
             if info["rc"] != 0 or info.get("driver_rc") not in (0,):
                 v = {"kind": "stream-crashed", "stream": name + tag, "detail": (info.get("gen_out", "") + str(info.get("driver_err", "")))[-1500:]}
+                if info.get("crash"):
+                    v.update(info["crash"])
                 if info.get("crash", {}).get("replays_alone"):
                     # a concrete failing input: this one generated history kills the process running the real code
                     v["kind"] = "implementation-aborts"
-                    v.update(info["crash"])
                 violations.append(v)
                 continue
             ops, impl, model = load_lines(info)
